@@ -183,7 +183,15 @@ def __init__(self, sample_rate=3*u.GHz, fch1=0*u.GHz, ascending=True, num_pols=2
                           ref_attrs_only=True)
     calls = [e for e in I.events if e.kind == 'call' and e.data.get('name') == DS + 'get_samples']
     rest = [e for e in I.events if e.kind == 'store' and e.data.get('target') == 'attr' and e.data.get('name') in ('t_start', 'start_obs') and e.owner == un.short]
-    ok = bool(calls) and len(rest) >= 2 and all(e.seq > calls[-1].seq and not e.pc for e in rest)
+    def unconditional(e):
+        # (a restore that is performed on the normal AND on the exceptional exit of a try/finally or of a context manager
+        #  appears once per exit, each under that exit's own condition)
+        return all('exc(' in c.key or 'partial(' in c.key for c in e.pc)
+    # (a store made BEFORE the request that writes the attribute's own entry value back -- putting a saved state in place with
+    #  fresh generators -- changes nothing and is not a restore)
+    noop = [e for e in rest if calls and e.seq < calls[-1].seq and e.data['value'].key == T.mk_attr(sym('self'), e.data['name']).key]
+    rest = [e for e in rest if e not in noop]
+    ok = bool(calls) and len(rest) >= 2 and all(e.seq > calls[-1].seq and unconditional(e) for e in rest)
     ctx.ob('RESTORE', 'the clock and start flag are re-assigned from the saved values after the request', un, ok,
            {'request': [e.text() for e in calls], 'restores': [e.text() for e in rest]}, node=un.node, construct='restore after get_samples')
     # GENSTATE: the probe request must not consume the stream's random generators -- seeded noise after update_noise has to be
